@@ -32,8 +32,10 @@ COMMON = ["-std=c++17", "-O1", "-gline-tables-only", "-fno-omit-frame-pointer",
 VARIANTS = {
     # address + undefined, coverage instrumentation of the library code so that the same
     # objects serve rapidcheck binaries and libFuzzer targets
-    "asan": ["-fsanitize=address,undefined", "-fno-sanitize-recover=all",
-             "-D_GLIBCXX_SANITIZE_VECTOR"],
+    # (_GLIBCXX_SANITIZE_VECTOR is not used: librapidcheck.a is built without it and mixing
+    # annotated and un-annotated std::vector code yields false container-overflow reports;
+    # _GLIBCXX_ASSERTIONS still checks every std::vector::operator[] against size())
+    "asan": ["-fsanitize=address,undefined", "-fno-sanitize-recover=all"],
     "tsan": ["-fsanitize=thread"],
 }
 ADAPTER_TYPES = {"asan": list(range(9)), "tsan": [0, 1, 4, 5, 8]}
@@ -49,6 +51,10 @@ SAN_ENV = {
 DEFAULT = {"variant": "asan", "adapters": True, "quick": {"shards": 8, "n": 1500, "scale": 20, "arg": 0},
            "thorough": {"shards": 16, "n": 12000, "scale": 30, "arg": 0}, "fuzz_s": 0}
 CONFIG = {
+    "C18": {"quick": {"shards": 8, "n": 2500, "scale": 10, "arg": 6},
+            "thorough": {"shards": 16, "n": 20000, "scale": 16, "arg": 10}},
+    "C07": {"quick": {"shards": 8, "n": 2500, "scale": 8, "arg": 10},
+            "thorough": {"shards": 16, "n": 20000, "scale": 10, "arg": 24}},
     "C17": {"quick": {"shards": 8, "n": 4000, "scale": 8, "arg": 9},
             "thorough": {"shards": 16, "n": 40000, "scale": 12, "arg": 24}},
 }
@@ -87,8 +93,14 @@ def include_hash():
     return file_hash(tree_files(os.path.join(REPO, "include"), (".hpp", ".h")))
 
 
-def engine_hash():
-    return file_hash(tree_files(ENGINE, (".hpp", ".cpp")))
+def adapter_hash():
+    """Sources the adapter objects are compiled from."""
+    return file_hash([os.path.join(ENGINE, f) for f in ("adapter.hpp", "adapter_impl.hpp", "adapter_tu.cpp", "adapter_dispatch.cpp")])
+
+
+def harness_hash():
+    """Headers every property translation unit includes."""
+    return file_hash(tree_files(ENGINE, (".hpp",)))
 
 
 def run(cmd, **kw):
@@ -97,7 +109,7 @@ def run(cmd, **kw):
 
 def build_dir(variant):
     flags = " ".join(COMMON + VARIANTS[variant])
-    key = hashlib.sha256((include_hash() + engine_hash() + flags).encode()).hexdigest()[:16]
+    key = hashlib.sha256((include_hash() + adapter_hash() + flags).encode()).hexdigest()[:16]
     return os.path.join(BUILD_ROOT, "%s-%s" % (variant, key))
 
 
@@ -165,7 +177,7 @@ def build(pid, variant=None, fuzz=False, quiet=False):
     src = os.path.join(PROPS, pid + ".cpp")
     if variant == "tsan" and os.path.exists(os.path.join(PROPS, pid + "_tsan.cpp")):
         src = os.path.join(PROPS, pid + "_tsan.cpp")
-    ph = file_hash([src])[:10]
+    ph = hashlib.sha256((file_hash([src]) + harness_hash()).encode()).hexdigest()[:10]
     binary = os.path.join(bdir, "%s%s.%s" % (pid, "_fuzz" if fuzz else "", ph))
     if os.path.exists(binary):
         return binary
@@ -192,10 +204,12 @@ def build(pid, variant=None, fuzz=False, quiet=False):
         if rc != 0:
             sys.stderr.write("LINK FAILED: %s\n%s\n" % (" ".join(link), out[-6000:]))
             raise SystemExit(3)
-        try:
-            os.remove(pobj)
-        except OSError:
-            pass
+        for old in glob.glob(os.path.join(bdir, pid + ("_fuzz" if fuzz else "") + ".*")):
+            if old != binary and not old.endswith(".tmp") and os.path.basename(old).split(".")[0] == pid + ("_fuzz" if fuzz else ""):
+                try:
+                    os.remove(old)
+                except OSError:
+                    pass
         if not quiet:
             sys.stderr.write("[build] %s%s (%s) in %.0fs\n" % (pid, " fuzz" if fuzz else "", variant, time.time() - t0))
         prune_build_dirs({bdir, build_dir("asan"), build_dir("tsan")})
